@@ -327,6 +327,19 @@ def _continuation(pk: FuncInfo) -> Optional[ast.AST]:
     if len(loops) != 1:
         return None
     t = loops[0].test
+    if isinstance(t, ast.Constant) and t.value is True:
+        # `while True: ...; if not <remains>: break`: the loop goes round again when no guard breaks out; the guard that
+        # tests a local assigned in the loop from the remaining-entries expression is the continuation, negated
+        for st in loops[0].body:
+            if isinstance(st, ast.If) and not st.orelse and len(st.body) == 1 and isinstance(st.body[0], ast.Break) and isinstance(st.test, ast.UnaryOp) and isinstance(st.test.op, ast.Not):
+                c = st.test.operand
+                if isinstance(c, ast.Name):
+                    defs = [s_.value for s_ in walk_local_ordered(loops[0]) if isinstance(s_, ast.Assign) and len(s_.targets) == 1 and isinstance(s_.targets[0], ast.Name) and s_.targets[0].id == c.id]
+                    if len(defs) == 1 and isinstance(defs[0], (ast.Call, ast.Compare, ast.BoolOp)) and not (isinstance(defs[0], ast.Call) and norm(defs[0].func) == 'bool'):
+                        return defs[0]
+                elif isinstance(c, (ast.Call, ast.Compare, ast.BoolOp)):
+                    return c
+        return None
     if isinstance(t, ast.Name):
         defs = [st.value for st in walk_local_ordered(loops[0]) if isinstance(st, ast.Assign) and len(st.targets) == 1 and isinstance(st.targets[0], ast.Name) and st.targets[0].id == t.id]
         return defs[-1] if len(defs) == 1 else None
@@ -374,7 +387,18 @@ def sections(ctx: Any) -> List[Ob]:
     obs.append(ob(R, pk, f'header counts inserted (reverse wire order): {count_inserts}', 'QDCOUNT/ANCOUNT/NSCOUNT/ARCOUNT slots carry the counts of questions/answers/authorities/additionals written', count_inserts == want_order, f'expected {want_order}'))
     # the insertion of the counts is followed by flags then id (so wire order is id, flags, qd, an, ns, ar)
     tail = [x for x in inserts if x not in written]
-    obs.append(ob(R, pk, f'then flags/id: {tail}', 'flags then id are inserted after the counts (wire order id, flags, counts)', len(tail) >= 2 and all('flags' in x for x in tail[:-2] + tail[:1]) and all(x in ('0', f'{me}.id') for x in tail[-2:]), str(tail)))
+    # (each inserted in the arms of an `if`, or once with the choice made in the argument)
+    tail_nodes = [c.args[0] for c in body if isinstance(c, ast.Call) and call_name(c) == '_insert_short_at_start' and norm(c.args[0]) not in written]
+
+    def tail_kind(x: ast.AST) -> str:
+        if isinstance(x, ast.IfExp):
+            ks = {tail_kind(x.body), tail_kind(x.orelse)}
+            return ks.pop() if len(ks) == 1 else '?'
+        t_ = norm(x)
+        return 'I' if t_ in ('0', f'{me}.id') else ('F' if 'flags' in t_ else '?')
+
+    kinds_t = ''.join(tail_kind(x) for x in tail_nodes)
+    obs.append(ob(R, pk, f'then flags/id: {tail}', 'flags then id are inserted after the counts (wire order id, flags, counts)', kinds_t in ('FI', 'FFII', 'FII', 'FFI'), str(tail)))
     # offsets advanced by the same variable
     for cnt, (writer, lst, off) in written.items():
         augs = [st for st in body if isinstance(st, ast.AugAssign) and isinstance(st.op, ast.Add) and norm(st.target) == off]
@@ -487,7 +511,9 @@ def sections(ctx: Any) -> List[Ob]:
             oc_t, und_t = fd.run_paths(prog, pk0.module, pcfg, atoms_t, eff_t, start=lt[0], stop=lambda n: n is lt[0], init_locals={norm(lt[0].ast): True} if isinstance(lt[0].ast, ast.Name) else None, loop_bound=1)
             got_t = {tuple(x for x in strip_ret(t) if x in ('HANDOUT', 'RESET', 'FIN')) for t in oc_t}
             # (a trip that neither resets nor finishes has come back to the loop test with nothing remaining: the loop ends there)
-            want_t = {('HANDOUT', 'RESET')} if (more and progress) else ({('HANDOUT',)} if progress else {('HANDOUT', 'FIN')})
+            # (with `while True` the loop is left by a break, straight to the finished mark)
+            ends_at_test = not (isinstance(lt[0].ast, ast.Constant) and lt[0].ast.value is True)
+            want_t = {('HANDOUT', 'RESET')} if (more and progress) else ({('HANDOUT',) if ends_at_test else ('HANDOUT', 'FIN')} if progress else {('HANDOUT', 'FIN')})
             obs.append(ob(R, pk0, f'one datagram built: entries remain={more}, something was written={progress}', f'effects {sorted(want_t)[0]}', bool(prog_defs) and got_t == want_t, f'got {sorted(got_t)}; tests left open (logging): {und_t}'))
     return obs
 
